@@ -327,6 +327,52 @@ def Class.addCaseEquivalences (cat : Nat → Nat → Bool) (orbit : Nat → List
   | .leaf f => .leaf (f.addCaseEquivalences cat orbit false)
   | .minus f s => .minus (f.addCaseEquivalences cat orbit true) (Class.addCaseEquivalences cat orbit s)
 
+/-! ## `addLowercase` (the table `lcTable` is a parameter; `Generated/Class.lean` holds the source's) -/
+
+/-- one operation of `lcTable`: 0 = set to `data`, 1 = add `data`, 2 = `| 1`, 3 = `+ (ch & 1)` -/
+def lcApply (op : Nat) (data : Int) (x : Nat) : Nat :=
+  if op = 0 then data.toNat
+  else if op = 1 then ((x : Int) + data).toNat
+  else if op = 2 then x ||| 1
+  else x + (x &&& 1)
+
+/-- the binary search at the head of `addLowercaseRange`: first row whose `chMax` is not below `chMin` -/
+def lcSearch (tbl : List (Nat × Nat × Nat × Int)) (chMin : Nat) : Nat → Nat → Nat → Nat
+  | 0, i, _ => i
+  | fuel + 1, i, iMax =>
+    if i < iMax then
+      let mid := (i + iMax) / 2
+      match tbl[mid]? with
+      | some row => if row.2.1 < chMin then lcSearch tbl chMin fuel (mid + 1) iMax else lcSearch tbl chMin fuel i mid
+      | none => i
+    else i
+
+/-- the second loop of `addLowercaseRange` over the rows from the found index on -/
+def lcScan (chMin chMax : Nat) : List (Nat × Nat × Nat × Int) → List (Nat × Nat)
+  | [] => []
+  | (lo, hi, op, data) :: rest =>
+    if lo > chMax then []
+    else
+      let a := if lo < chMin then chMin else lo
+      let b := if hi > chMax then chMax else hi
+      let a' := lcApply op data a
+      let b' := lcApply op data b
+      (if a' < chMin ∨ b' > chMax then [(a', b')] else []) ++ lcScan chMin chMax rest
+
+/-- the ranges `addLowercaseRange(chMin, chMax)` appends -/
+def lowercaseRangeAdds (tbl : List (Nat × Nat × Nat × Int)) (chMin chMax : Nat) : List (Nat × Nat) :=
+  lcScan chMin chMax (tbl.drop (lcSearch tbl chMin tbl.length 0 tbl.length))
+
+/-- `addLowercase`: single characters are replaced by `unicode.ToLower` (oracle `toLower`), proper ranges
+get the table's lowercase images appended; then `canonicalize` -/
+def Flat.addLowercase (cat : Nat → Nat → Bool) (toLower : Nat → Nat) (tbl : List (Nat × Nat × Nat × Int))
+    (hasSub : Bool) (f : Flat) : Flat :=
+  if f.anything then f
+  else
+    let rs1 := f.ranges.map (fun r => if r.1 = r.2 then (toLower r.1, toLower r.1) else r)
+    let adds := (f.ranges.filter (fun r => r.1 ≠ r.2)).flatMap (fun r => lowercaseRangeAdds tbl r.1 r.2)
+    Flat.canonicalize cat hasSub { f with ranges := rs1 ++ adds }
+
 /-! ## The parser's way of building a class (`scanCharSet`, without IgnoreCase) -/
 
 /-- what `scanCharSet` adds for one syntactic item -/
